@@ -127,12 +127,11 @@ Theorem C01_flush_results_buffer_shape :
   = Some x_flush_results_buffer.
 Proof. vm_compute. reflexivity. Qed.
 
-Theorem C01_simple_search_shape :
-  xshape tk_simple_search sk_simple_search = Some x_simple_search.
-Proof. vm_compute. reflexivity. Qed.
-
+(* the line loop with _simple_search in place of its call (a method of its
+   own or already inlined: same normal form) *)
 Theorem C01_run_search_shape :
-  xshape tk_run_search sk_run_search = Some x_run_search.
+  xshape_guarded tk_run_search_full sk_run_search_full
+  = Some x_run_search_full.
 Proof. vm_compute. reflexivity. Qed.
 
 Theorem C01_execute_shape : xshape tk_execute sk_execute = Some x_execute.
@@ -224,9 +223,10 @@ Qed.
    compilation - per attribute, so that re-ordering independent assignments
    or adding log lines / locals is harmless *)
 Theorem C01_searchdef_init_flows :
-  writes_table ["patterns"; "store_result_contents"; "tag"; "field_info";
-                "hint"; "sequence_def"] tk_searchdef_init
-  = w_searchdef_init.
+  tables_same (writes_table ["patterns"; "store_result_contents"; "tag"; "field_info";
+                "hint"; "sequence_def"]
+                            tk_searchdef_init)
+              w_searchdef_init = true.
 Proof. vm_compute. reflexivity. Qed.
 
 (* "do this last": the base-class constructor (constraints, id) runs after
@@ -243,8 +243,8 @@ Theorem C01_searchdef_patterns_is_model :
     searchdef_patterns compile is_list single many =
     map compile (pattern_arg_list is_list single many).
 Proof.
-  intros P C. exact (patterns_as_model (@searchdef_patterns P C)
-                                        (fun _ _ _ _ => eq_refl)).
+  intros P C compile is_list single many. unfold searchdef_patterns.
+  destruct is_list; reflexivity.
 Qed.
 
 (* the hint is compiled (hence consulted by run) iff it is truthy: s_hint *)
@@ -262,17 +262,18 @@ Theorem C01_sdef_of_args_fields :
 Proof. intros. repeat split. Qed.
 
 Theorem C01_link_to_sequence_flows :
-  writes_table ["sequence_def"; "tag"] tk_searchdef_link_to_sequence
-  = w_link_to_sequence.
+  tables_same (writes_table ["sequence_def"; "tag"]
+                            tk_searchdef_link_to_sequence)
+              w_link_to_sequence = true.
 Proof. vm_compute. reflexivity. Qed.
 
 (* SearchTask.__init__: info / managers as given, results_buffer = [] (the
    model's initial mkT [] [] false), decode policy passed on only if given *)
 Theorem C01_searchtask_init_flows :
-  writes_table ["proc"; "info"; "stats"; "constraints_manager";
+  tables_same (writes_table ["proc"; "info"; "stats"; "constraints_manager";
                 "results_manager"; "decode_kwargs"; "results_buffer"]
-               tk_searchtask_init
-  = w_searchtask_init.
+                            tk_searchtask_init)
+              w_searchtask_init = true.
 Proof. vm_compute. reflexivity. Qed.
 
 Theorem C01_searchtask_init_buffer_empty :
@@ -285,9 +286,9 @@ Proof. split; reflexivity. Qed.
    collection is refused (the model uses the collection: single process);
    each property returns its own attribute *)
 Theorem C01_resultsmanager_init_flows :
-  writes_table ["results_store"; "results_queue"; "results_collection"]
-               tk_resultsmanager_init
-  = w_resultsmanager_init /\
+  tables_same (writes_table ["results_store"; "results_queue";
+                             "results_collection"] tk_resultsmanager_init)
+              w_resultsmanager_init = true /\
   (forall q c, resultsmanager_rejects q c = q && c).
 Proof. split; [vm_compute; reflexivity|reflexivity]. Qed.
 
